@@ -19,6 +19,16 @@ pub(crate) mod verif_stubs {
     pub fn stub_format(_args: core::fmt::Arguments<'_>) -> String {
         String::new()
     }
+    // over-approximation of UTF-8 validation for panic-freedom harnesses: validity is
+    // non-deterministic (the error value comes from validating one concrete invalid byte)
+    pub fn stub_from_utf8(v: &[u8]) -> Result<&str, core::str::Utf8Error> {
+        if kani::any() {
+            Ok(unsafe { core::str::from_utf8_unchecked(v) })
+        } else {
+            let mut bad = [0xff_u8];
+            Err(core::str::from_utf8_mut(&mut bad).unwrap_err())
+        }
+    }
 }
 '''
 
